@@ -163,7 +163,7 @@ type c16Item struct {
 func c16(tier string) {
 	ctx := lib.NewCtx("C16", tier)
 	maxLeaves := ctx.N(3, 4)
-	ctx.Rule = fmt.Sprintf("EXHAUSTIVE enumeration of all path ASTs with <=%d IRIs/@type over sequence, alternative, inverse and grouping, each printed in several whitespace / redundant-parenthesis variants, plus single-character edits (delete/insert/replace over the alphabet %q) of the canonical print of every sentence with <=%d IRIs (%s), every single blank of every canonical print deleted, and runs of 33-72 blanks inside / around the sentence and between it and stray text; each string is classified by an independent recogniser of the documented grammar; "+
+	ctx.Rule = fmt.Sprintf("EXHAUSTIVE enumeration of all path ASTs with <=%d IRIs/@type over sequence, alternative, inverse and grouping, each printed in several whitespace / redundant-parenthesis variants, plus single-character edits (delete/insert/replace over the alphabet %q) of the canonical print of every sentence with <=%d IRIs (%s), every single blank and every run of blanks of every canonical print deleted, and runs of 33-72 blanks inside / around the sentence and between it and stray text; each string is classified by an independent recogniser of the documented grammar; "+
 		"sentences must compile and denote what the grammar's structure denotes on discriminating graphs, non-sentences must be rejected; non-trivial & distinct = distinct judged string", maxLeaves, c16Alphabet, ctx.N(2, 3), map[bool]string{true: "seeded 12% sample", false: "all of them"}[ctx.Quick()])
 	ctx.Assumptions = []string{
 		"strings with leading/trailing whitespace and the empty string are not judged",
@@ -235,6 +235,15 @@ func c16(tier string) {
 				for bi := 0; bi < len(canon); bi++ {
 					if canon[bi] == ' ' {
 						add(canon[:bi]+canon[bi+1:], "edit", nil, canon)
+						if bi == 0 || canon[bi-1] != ' ' { // and the whole run of blanks that starts here
+							be := bi
+							for be < len(canon) && canon[be] == ' ' {
+								be++
+							}
+							if be > bi+1 {
+								add(canon[:bi]+canon[be:], "edit", nil, canon)
+							}
+						}
 					}
 				}
 				// long runs of blanks: inside the sentence, around it, and between the sentence and stray text
